@@ -43,8 +43,11 @@ func CheckMnemonic(mnemonic string, lg Language) error {
 	// get checksum
 	csBig := new(big.Int).And(entBig, big.NewInt(shift-1))
 
-	// get real entropy
-	entBytes := entBig.Quo(entBig, big.NewInt(shift)).Bytes()
+	// get real entropy, left-padded to its full ENT/8 bytes
+	// (big.Int.Bytes drops leading zero bytes)
+	rawBytes := entBig.Quo(entBig, big.NewInt(shift)).Bytes()
+	entBytes := make([]byte, wordCount/3*4)
+	copy(entBytes[len(entBytes)-len(rawBytes):], rawBytes)
 	// get checksum from real entropy
 	hash := sha256.New()
 	_, _ = hash.Write(entBytes)
